@@ -317,3 +317,27 @@ Theorem C12_receive_task_forwards_the_datagram_source : forall (f : pfilter) (p 
 Proof. exact Discv5V.Proofs.Limiter.inbound_forwards_normalised_source. Qed.
 Print Assumptions C12_receive_task_forwards_the_datagram_source.
 End C12Recv.
+
+(* A PONG writes no record: whatever the lookups in progress were told about the node (Model/Admission.v
+   pong_q = the PONG arm with find_enr and the running queries' records in view, compared with the real
+   service on generated histories), every (id, record) pair of the table - pending slots included - was
+   there before, no key is new, and the admission invariant is kept. *)
+Module C12Pong.
+Import Discv5V.Model.KBucket Discv5V.Model.Nodes Discv5V.Model.Admission.
+Theorem C12_a_pong_writes_no_record :
+  forall (rec_of : N -> enr) (mode : ip_mode) (c : config) (t : table) (u : list enr) (id s now : N) (x : N * val),
+  In x (Discv5V.Proofs.KBMembers.tmem (fst (pong_q rec_of mode c t u id s now))) -> In x (Discv5V.Proofs.KBMembers.tmem t).
+Proof. exact Discv5V.Proofs.Admission.pong_q_mem. Qed.
+Print Assumptions C12_a_pong_writes_no_record.
+Theorem C12_a_pong_admits_nobody :
+  forall (rec_of : N -> enr) (mode : ip_mode) (c : config) (t : table) (u : list enr) (id s now k : N),
+  In k (Discv5V.Proofs.KBMembers.tkeys (fst (pong_q rec_of mode c t u id s now))) -> In k (Discv5V.Proofs.KBMembers.tkeys t).
+Proof. exact Discv5V.Proofs.Admission.pong_q_no_new_key. Qed.
+Print Assumptions C12_a_pong_admits_nobody.
+Theorem C12_a_pong_keeps_the_admission_invariant :
+  forall (rec_of : N -> enr) (tf : enr -> bool) (mode : ip_mode) (c : config) (t : table) (u : list enr) (id s now : N),
+  Discv5V.Proofs.Admission.Adm rec_of tf mode t ->
+  Discv5V.Proofs.Admission.Adm rec_of tf mode (fst (pong_q rec_of mode c t u id s now)).
+Proof. exact Discv5V.Proofs.Admission.pong_q_adm. Qed.
+Print Assumptions C12_a_pong_keeps_the_admission_invariant.
+End C12Pong.
